@@ -278,6 +278,47 @@ theorem causal_check_sound (dep : Nat → Nat → Option (Nat × Nat)) (W : List
   have := causalCheckFrom_sound dep W [] (by simpa [causalCheck, spec, specFrom] using h) i c hi row hrow d hd
   simpa using this
 
+/-- the three IdentityDatabase inserts are exactly `storeOps` of their table, and the manager stores a credential's
+    parts tokens first, then metadata, then attestations — in `add_credential` (hence `create_credential`) and in
+    `substantiate` (both orders generated from the call sites of manager.py) -/
+theorem credential_parts_stored_in_pointer_order :
+    (Gen.insertMethods.take 3).map (·.paths) = [[storeOps 0], [storeOps 1], [storeOps 2]] ∧
+    Gen.credentialOrder = [0, 1, 2] ∧ Gen.substantiateOrder = [0, 1, 2] := by decide
+
+/-- **`Causal` discharged for credentials stored through the manager**: any list of credentials whose predecessor
+    token is genesis or the token of an earlier credential (`Linked`: what `create_credential(after=…)` produces, and
+    what a disclosure handed over oldest first produces), stored in the generated order, with any pointer function
+    `dep` that reads the credentials' pointers (`DepOk`) — the resulting workload satisfies `Causal`.  No hypothesis
+    about the insert order is left: it comes from `Gen.credentialOrder`. -/
+theorem own_credentials_stored_causally (dep : Nat → Nat → Option (Nat × Nat)) (creds : List Cred)
+    (hd : ∀ c ∈ creds, DepOk dep c) (hl : Linked [] creds) :
+    TopLevel (creds.flatMap (credCalls Gen.credentialOrder)) ∧
+    Causal dep (creds.flatMap (credCalls Gen.credentialOrder)) := by
+  have ho : Gen.credentialOrder = [0, 1, 2] := credential_parts_stored_in_pointer_order.2.1
+  rw [ho]
+  refine ⟨credCalls_topLevel creds, ?_⟩
+  intro i c hi row hrow d hdep
+  have h := creds_causalL dep creds [] [] hd hl (by simp)
+  have := causal_of_causalL dep _ [] (by simpa using credCalls_topLevel creds) h i c hi row hrow d hdep
+  simpa using this
+
+/-- … hence, with no hypothesis on the caller: credentials created through the manager, a kill at any point, reopen —
+    the store is closed under the pointers and every chain reaches genesis -/
+theorem own_pseudonym_survives (C : CommitMethod) (hC : wfCommit C = true) (dep : Nat → Nat → Option (Nat × Nat))
+    (creds : List Cred) (hd : ∀ c ∈ creds, DepOk dep c) (hl : Linked [] creds) (k j : Nat) :
+    let W := creds.flatMap (credCalls Gen.credentialOrder)
+    Closed dep (visible (crashAt C W k j)) ∧
+    ∀ r ∈ visible (crashAt C W k j), Reaches dep (visible (crashAt C W k j)) r.table r.key := by
+  obtain ⟨hT, hc⟩ := own_credentials_stored_causally dep creds hd hl
+  exact rebuild_verifies C hC _ hT dep hc k j
+
+/-- what the order is for: metadata stored before its token is not `Causal` (the executable check says so) -/
+example :
+    causalCheck (fun t k => if t = 1 ∧ k = 5 then some (0, 1) else none)
+      (credCalls [1, 0, 2] ⟨1, none, 5, []⟩) = false ∧
+    causalCheck (fun t k => if t = 1 ∧ k = 5 then some (0, 1) else none)
+      (credCalls [0, 1, 2] ⟨1, none, 5, []⟩) = true := by decide
+
 /-- non-vacuity of `Causal`: token 1 (genesis), token 2 → token 1, metadata 5 → token 2 -/
 example : Causal (fun t k => if t = 0 ∧ k = 2 then some (0, 1) else if t = 1 ∧ k = 5 then some (0, 2) else none)
     [⟨0, [.exec 0 .orIgnore, .callCommit, .ret], 1, 10⟩, ⟨1, [.exec 0 .orIgnore, .callCommit, .ret], 2, 20⟩,
